@@ -26,6 +26,10 @@ from typing import Any, Callable, Optional
 
 EPOCH = _real_datetime.datetime(2030, 1, 1, 0, 0, 0, tzinfo=_real_datetime.timezone.utc)
 
+# Which object the code currently running in this task works for (set by scripted handlers).
+import contextvars
+current_uid: contextvars.ContextVar[Optional[str]] = contextvars.ContextVar('sim_current_uid', default=None)
+
 # The simulation in progress in this process (one at a time).
 CURRENT: Optional["Sim"] = None
 
